@@ -1,5 +1,5 @@
 SPECIFICATION Spec
-CONSTANT StrLen = 20
+CONSTANT StrLen = 19
 CONSTANT SmallMax = 65536
 CONSTANT EmitMod = 101
 INVARIANT Canonical
